@@ -265,26 +265,117 @@ Proof.
   - intros [Hm H]. split; [split; [lia | exact H] | exact Hm].
 Qed.
 
-Lemma roots_in cfg ns g r : In r (roots cfg ns g) <-> r < size g /\ node_match cfg (attr ns r) = true.
+(* --- the code's filter is the property's reading: the filters of a node are those of the target it
+   stands for (repair of C12-F1 / C20-F2; before it an alias only had to match the pattern) *)
+
+Lemma resolve_target g ns fuel i : nkind (attr ns i) = KTarget -> resolve g ns fuel i = i.
+Proof. intro H. destruct fuel; simpl; [reflexivity | rewrite H; reflexivity]. Qed.
+
+Lemma stands_for_target ns g i : nkind (attr ns i) = KTarget -> stands_for ns g i = i.
+Proof. intro H. unfold stands_for. apply resolve_target. exact H. Qed.
+
+Lemma node_match_spec cfg ns g i : node_match cfg ns g i = spec_rootb cfg ns g i.
+Proof.
+  unfold node_match, node_matches_filters, resolved_matches_platform, spec_rootb, passes_filters, target_filters.
+  destruct (is_target (attr ns (stands_for ns g i))),
+    (type_ok (ctype cfg) (attr ns (stands_for ns g i))), (matches_patterns (cpats cfg) (nlabel (attr ns i))),
+    (tags_match cfg (attr ns (stands_for ns g i))), (excl_match cfg (attr ns (stands_for ns g i))),
+    (node_matches_platform cfg (attr ns (stands_for ns g i))); reflexivity.
+Qed.
+
+(* for a target the rule is the familiar one: type, pattern, tags, exclude-tags and platform of the target itself *)
+Lemma spec_root_target cfg ns g i :
+  nkind (attr ns i) = KTarget ->
+  spec_rootb cfg ns g i =
+  matches_patterns (cpats cfg) (nlabel (attr ns i)) && target_filters cfg (attr ns i)
+  && node_matches_platform cfg (attr ns i).
+Proof.
+  intro H. unfold spec_rootb, passes_filters. rewrite (stands_for_target ns g i H).
+  unfold is_target. rewrite H. cbn [andb]. rewrite andb_assoc. reflexivity.
+Qed.
+
+(* an alias is a root iff it matches the pattern and the target it resolves to passes the filters *)
+Lemma spec_root_alias cfg ns g i :
+  nkind (attr ns i) = KAlias ->
+  spec_rootb cfg ns g i =
+  matches_patterns (cpats cfg) (nlabel (attr ns i)) &&
+  (is_target (attr ns (stands_for ns g i)) && target_filters cfg (attr ns (stands_for ns g i))
+   && node_matches_platform cfg (attr ns (stands_for ns g i))).
+Proof. intros _. reflexivity. Qed.
+
+(* the fuel of [resolve] is immaterial once it exceeds the index (every step goes to a smaller index) *)
+Lemma resolve_stable g ns : topo g ->
+  forall f1 f2 i, i < f1 -> i < f2 -> resolve g ns f1 i = resolve g ns f2 i.
+Proof.
+  intro Ht. induction f1 as [| f1 IH]; intros f2 i H1 H2; [lia |].
+  destruct f2 as [| f2]; [lia |]. cbn [resolve].
+  destruct (nkind (attr ns i)); [reflexivity |].
+  destruct (deps g i) as [| d [| d' ds]] eqn:E; try reflexivity.
+  assert (Hd : d < i) by (apply Ht; rewrite E; left; reflexivity).
+  apply IH; lia.
+Qed.
+
+Lemma resolve_S g ns f i :
+  resolve g ns (S f) i = match nkind (attr ns i), deps g i with
+                         | KAlias, [d] => resolve g ns f d
+                         | _, _ => i
+                         end.
+Proof. reflexivity. Qed.
+
+(* an alias stands for what its `actual` stands for; hence it passes the filters iff its actual does *)
+Lemma stands_for_alias ns g i d : topo g ->
+  nkind (attr ns i) = KAlias -> deps g i = [d] -> stands_for ns g i = stands_for ns g d.
+Proof.
+  intros Ht K E. unfold stands_for. rewrite (resolve_S g ns i i), K, E.
+  assert (Hd : d < i) by (apply Ht; rewrite E; left; reflexivity).
+  apply (resolve_stable g ns Ht); lia.
+Qed.
+
+Lemma passes_filters_alias cfg ns g i d : topo g ->
+  nkind (attr ns i) = KAlias -> deps g i = [d] -> passes_filters cfg ns g i = passes_filters cfg ns g d.
+Proof. intros Ht K E. unfold passes_filters. rewrite (stands_for_alias ns g i d Ht K E). reflexivity. Qed.
+
+Lemma passes_filters_target cfg ns g i :
+  nkind (attr ns i) = KTarget ->
+  passes_filters cfg ns g i = target_filters cfg (attr ns i) && node_matches_platform cfg (attr ns i).
+Proof.
+  intro K. unfold passes_filters. rewrite (stands_for_target ns g i K). unfold is_target. rewrite K. reflexivity.
+Qed.
+
+Lemma roots_eq_spec_roots cfg ns g : roots cfg ns g = spec_roots cfg ns g.
+Proof. unfold roots, spec_roots. apply filter_ext. intro a. apply node_match_spec. Qed.
+
+Lemma select_for_build_is_spec cfg ns g : select_for_build cfg ns g = select_for_build_spec cfg ns g.
+Proof. unfold select_for_build, select_marks, select_for_build_spec. rewrite roots_eq_spec_roots. reflexivity. Qed.
+
+Lemma roots_in cfg ns g r : In r (roots cfg ns g) <-> r < size g /\ node_match cfg ns g r = true.
 Proof.
   unfold roots. rewrite filter_In, in_seq. split.
   - intros [[_ H] Hm]. split; assumption.
   - intros [H Hm]. split; [split; [lia | exact H] | exact Hm].
 Qed.
 
-(* a root has passed the platform check in the root loop *)
+Lemma spec_roots_in cfg ns g r : In r (spec_roots cfg ns g) <-> r < size g /\ spec_rootb cfg ns g r = true.
+Proof. rewrite <- roots_eq_spec_roots, roots_in, node_match_spec. reflexivity. Qed.
+
+(* a root has passed the platform check in the root loop; as a node it passes the node-level check the
+   traversal applies to dependencies (an alias always does) *)
 Lemma roots_plat_ok cfg ns g r : In r (roots cfg ns g) -> plat_okb cfg ns r = true.
 Proof.
   intro H. apply roots_in in H. destruct H as [_ H]. unfold node_match in H.
-  apply andb_true_iff in H. exact (proj2 H).
+  apply andb_true_iff in H. destruct H as [_ H]. unfold resolved_matches_platform in H. unfold plat_okb.
+  destruct (nkind (attr ns r)) eqn:K.
+  - rewrite (stands_for_target ns g r K) in H. exact H.
+  - unfold node_matches_platform. rewrite K. reflexivity.
 Qed.
 
-(* selection = closure of the code's roots (matched aliases are roots) *)
-Lemma selection_is_closure_code_roots cfg ns g S :
+(* selection = closure of the roots of the property's reading (the pattern matches whose target passes
+   the tag / exclude-tag / type / platform filters), for every node *)
+Lemma selection_is_closure cfg ns g S :
   topo g -> select_for_build cfg ns g = Selected S ->
-  forall n, In n S <-> exists r, In r (roots cfg ns g) /\ reach_refl g n r.
+  forall n, In n S <-> exists r, In r (spec_roots cfg ns g) /\ reach_refl g n r.
 Proof.
-  intros Ht Hs n. unfold select_for_build, select_marks in Hs.
+  intros Ht Hs n. rewrite <- roots_eq_spec_roots. unfold select_for_build, select_marks in Hs.
   pose proof (select_roots_spec g (plat_okb cfg ns) Ht (roots cfg ns g) (roots_plat_ok cfg ns g)) as Hspec.
   destruct (selv_roots g (plat_okb cfg ns) (roots cfg ns g) []) as [m |]; [| discriminate].
   injection Hs as Hs. subst S. destruct Hspec as [H1 _].
@@ -299,9 +390,9 @@ Qed.
 Lemma platform_error_iff cfg ns g :
   topo g ->
   (select_for_build cfg ns g = PlatformError <->
-   exists r n, In r (roots cfg ns g) /\ reach g n r /\ node_matches_platform cfg (attr ns n) = false).
+   exists r n, In r (spec_roots cfg ns g) /\ reach g n r /\ node_matches_platform cfg (attr ns n) = false).
 Proof.
-  intro Ht. unfold select_for_build, select_marks.
+  intro Ht. rewrite <- roots_eq_spec_roots. unfold select_for_build, select_marks.
   pose proof (select_roots_spec g (plat_okb cfg ns) Ht (roots cfg ns g) (roots_plat_ok cfg ns g)) as Hspec.
   destruct (selv_roots g (plat_okb cfg ns) (roots cfg ns g) []) as [m |].
   - destruct Hspec as [_ H2]. split; [discriminate |].
@@ -314,7 +405,7 @@ Lemma selection_closed cfg ns g S :
   forall n a, In n S -> reach g a n -> In a S.
 Proof.
   intros Ht Hs n a Hn Ha.
-  rewrite (selection_is_closure_code_roots cfg ns g S Ht Hs) in *.
+  rewrite (selection_is_closure cfg ns g S Ht Hs) in *.
   destruct Hn as [r [Hr Hx]]. exists r. split; [exact Hr |].
   exact (reach_refl_trans g a n r (or_intror Ha) Hx).
 Qed.
@@ -322,7 +413,7 @@ Qed.
 (* no successful selection contains a platform-incompatible node below a root *)
 Lemma selection_platform_ok cfg ns g S :
   topo g -> select_for_build cfg ns g = Selected S ->
-  forall r n, In r (roots cfg ns g) -> reach g n r -> node_matches_platform cfg (attr ns n) = true.
+  forall r n, In r (spec_roots cfg ns g) -> reach g n r -> node_matches_platform cfg (attr ns n) = true.
 Proof.
   intros Ht Hs r n Hr Hx.
   destruct (node_matches_platform cfg (attr ns n)) eqn:E; [reflexivity |].
@@ -330,97 +421,24 @@ Proof.
   congruence.
 Qed.
 
-(* --- the property's reading: roots are decided on the target a node stands for *)
-
-Lemma resolve_target g ns fuel i : nkind (attr ns i) = KTarget -> resolve g ns fuel i = i.
-Proof. intro H. destruct fuel; simpl; [reflexivity | rewrite H; reflexivity]. Qed.
-
-Lemma spec_root_target cfg ns g i :
-  nkind (attr ns i) = KTarget -> spec_rootb cfg ns g i = node_match cfg (attr ns i).
+(* every selected TARGET is a target that passes the filters itself, or a dependency (through aliases) of a root:
+   an alias never brings in a target that nothing matched depends on *)
+Lemma selected_target_justified cfg ns g S :
+  topo g -> select_for_build cfg ns g = Selected S ->
+  forall n, In n S -> nkind (attr ns n) = KTarget ->
+  (matches_patterns (cpats cfg) (nlabel (attr ns n)) && target_filters cfg (attr ns n)
+   && node_matches_platform cfg (attr ns n) = true) \/
+  exists r, In r (spec_roots cfg ns g) /\ reach g n r.
 Proof.
-  intro H. unfold spec_rootb, node_match, node_matches_filters, target_filters, is_target.
-  rewrite (resolve_target g ns (S i) i H). rewrite H.
-  destruct (type_ok (ctype cfg) (attr ns i)), (matches_patterns (cpats cfg) (nlabel (attr ns i))),
-    (tags_match cfg (attr ns i)), (excl_match cfg (attr ns i)), (node_matches_platform cfg (attr ns i)); reflexivity.
+  intros Ht Hs n Hn K. apply (selection_is_closure cfg ns g S Ht Hs) in Hn.
+  destruct Hn as [r [Hr [E | Hx]]].
+  - subst r. left. apply spec_roots_in in Hr. destruct Hr as [_ Hr].
+    rewrite (spec_root_target cfg ns g n K) in Hr. exact Hr.
+  - right. exists r. split; assumption.
 Qed.
 
-(* guard: every alias matched by the pattern stands for a target that passes the filters *)
-Definition aliases_respect_filters (cfg : config) (ns : list node) (g : graph) : Prop :=
-  forall a, a < size g -> nkind (attr ns a) = KAlias ->
-            matches_patterns (cpats cfg) (nlabel (attr ns a)) = true -> spec_rootb cfg ns g a = true.
-
-Lemma roots_eq_spec_roots cfg ns g :
-  aliases_respect_filters cfg ns g -> roots cfg ns g = spec_roots cfg ns g.
-Proof.
-  intro Hg. unfold roots, spec_roots. apply filter_ext_in. intros a Ha.
-  apply in_seq in Ha. destruct (nkind (attr ns a)) eqn:K.
-  - symmetry. apply spec_root_target. exact K.
-  - unfold node_match, node_matches_filters, node_matches_platform. rewrite K. rewrite andb_true_r.
-    destruct (matches_patterns (cpats cfg) (nlabel (attr ns a))) eqn:M.
-    + symmetry. apply Hg; [lia | exact K | exact M].
-    + unfold spec_rootb. rewrite M. reflexivity.
-Qed.
-
-Lemma selection_is_closure_guarded cfg ns g S :
-  topo g -> aliases_respect_filters cfg ns g -> select_for_build cfg ns g = Selected S ->
-  forall n, In n S <-> exists r, In r (spec_roots cfg ns g) /\ reach_refl g n r.
-Proof.
-  intros Ht Hg Hs n. rewrite <- (roots_eq_spec_roots cfg ns g Hg).
-  exact (selection_is_closure_code_roots cfg ns g S Ht Hs n).
-Qed.
-
-Lemma platform_error_guarded cfg ns g :
-  topo g -> aliases_respect_filters cfg ns g ->
-  (select_for_build cfg ns g = PlatformError <->
-   exists r n, In r (spec_roots cfg ns g) /\ reach g n r /\ node_matches_platform cfg (attr ns n) = false).
-Proof.
-  intros Ht Hg. rewrite <- (roots_eq_spec_roots cfg ns g Hg). exact (platform_error_iff cfg ns g Ht).
-Qed.
-
-(* the same traversal started from the property's roots satisfies the full statements *)
-Lemma spec_roots_in cfg ns g r : In r (spec_roots cfg ns g) -> r < size g.
-Proof. unfold spec_roots. rewrite filter_In, in_seq. intros [[_ H] _]. exact H. Qed.
-
-Lemma spec_roots_plat_ok cfg ns g r : In r (spec_roots cfg ns g) -> plat_okb cfg ns r = true.
-Proof.
-  unfold spec_roots. rewrite filter_In. intros [_ H]. unfold plat_okb.
-  destruct (nkind (attr ns r)) eqn:K.
-  - rewrite (spec_root_target cfg ns g r K) in H. unfold node_match in H.
-    apply andb_true_iff in H. exact (proj2 H).
-  - unfold node_matches_platform. rewrite K. reflexivity.
-Qed.
-
-Lemma selection_spec_is_closure cfg ns g S :
-  topo g -> select_for_build_spec cfg ns g = Selected S ->
-  forall n, In n S <-> exists r, In r (spec_roots cfg ns g) /\ reach_refl g n r.
-Proof.
-  intros Ht Hs n. unfold select_for_build_spec in Hs.
-  pose proof (select_roots_spec g (plat_okb cfg ns) Ht (spec_roots cfg ns g) (spec_roots_plat_ok cfg ns g)) as Hspec.
-  destruct (selv_roots g (plat_okb cfg ns) (spec_roots cfg ns g) []) as [m |]; [| discriminate].
-  injection Hs as Hs. subst S. destruct Hspec as [H1 _].
-  rewrite normalize_spec, H1. split.
-  - intros [H _]. exact H.
-  - intros [r [Hr Hx]]. split; [exists r; split; assumption |].
-    apply spec_roots_in in Hr.
-    destruct Hx as [E | Hx]; [subst; exact Hr |].
-    pose proof (reach_topo_lt g n r Ht Hx). lia.
-Qed.
-
-Lemma platform_error_spec_iff cfg ns g :
-  topo g ->
-  (select_for_build_spec cfg ns g = PlatformError <->
-   exists r n, In r (spec_roots cfg ns g) /\ reach g n r /\ node_matches_platform cfg (attr ns n) = false).
-Proof.
-  intro Ht. unfold select_for_build_spec.
-  pose proof (select_roots_spec g (plat_okb cfg ns) Ht (spec_roots cfg ns g) (spec_roots_plat_ok cfg ns g)) as Hspec.
-  destruct (selv_roots g (plat_okb cfg ns) (spec_roots cfg ns g) []) as [m |].
-  - destruct Hspec as [_ H2]. split; [discriminate |].
-    intros [r [n [Hr [Hx Hp]]]]. specialize (H2 r n Hr Hx). unfold plat_okb in H2. congruence.
-  - split; [| reflexivity]. intros _. exact Hspec.
-Qed.
-
-(* refutation witnesses.  //:plain (no tag), alias //:al -> //:plain, //:tagged (tag x);
-   grog build --tag=x //... *)
+(* concrete instances (they were the refutation witnesses of the full statements before the repair of
+   C12-F1).  //:plain (no tag), alias //:al -> //:plain, //:tagged (tag x); grog build --tag=x //... *)
 Definition lbl (n : str) : label := mkLabel [] n.
 Definition w_plain : str := ["p"; "l"; "a"; "i"; "n"]%char.
 Definition w_al : str := ["a"; "l"]%char.
@@ -449,48 +467,43 @@ Proof.
   intros E H. destruct H as [a n Hin | a b n Hab Hin]; rewrite E in Hin; exact Hin.
 Qed.
 
-(* the untagged target 0 is selected although no root of the property's reading reaches it *)
-Lemma closure_full_refuted :
-  exists cfg ns g S n,
-    topo g /\ wf_graph g /\ select_for_build cfg ns g = Selected S /\
-    is_target (attr ns n) = true /\
-    ~ (In n S <-> exists r, In r (spec_roots cfg ns g) /\ reach_refl g n r).
-Proof.
-  exists wit_cfg, wit_nodes, wit_graph, [0; 1; 2], 0.
-  split; [exact wit_topo |]. split.
-  - intros i d H. unfold deps, wit_graph in H.
-    destruct i as [| [| [| i]]]; simpl in H; try contradiction.
-    + destruct H as [H | []]. subst. unfold size; simpl; lia.
-    + destruct i; simpl in H; contradiction.
-  - split; [vm_compute; reflexivity |]. split; [reflexivity |].
-    intros [H _]. destruct (H (or_introl eq_refl)) as [r [Hr Hx]].
-    assert (Er : spec_roots wit_cfg wit_nodes wit_graph = [2]) by (vm_compute; reflexivity).
-    rewrite Er in Hr. destruct Hr as [Hr | []]. subst r.
-    destruct Hx as [E | Hx]; [discriminate |].
-    exact (no_reach_leaf wit_graph 2 0 eq_refl Hx).
-Qed.
+(* the alias matches //... but the untagged target it stands for fails --tag=x: only //:tagged is a root and
+   only it is selected (before the repair the selection was [0; 1; 2]) *)
+Example alias_root_filtered :
+  topo wit_graph /\ spec_roots wit_cfg wit_nodes wit_graph = [2] /\
+  select_for_build wit_cfg wit_nodes wit_graph = Selected [2].
+Proof. split; [exact wit_topo |]. split; vm_compute; reflexivity. Qed.
 
-(* //:win (windows only), alias //:al -> //:win, //:plain; grog build //... on linux: the
-   property's roots are {//:plain} and nothing below it is platform-incompatible, yet the
-   selection fails *)
+(* without the tag filter the alias is a root like its target *)
+Example alias_root_kept :
+  spec_roots (mkCfg [match_all_pattern] [] [] NonTestOnly w_linux false) wit_nodes wit_graph = [0; 1; 2] /\
+  select_for_build (mkCfg [match_all_pattern] [] [] NonTestOnly w_linux false) wit_nodes wit_graph = Selected [0; 1; 2].
+Proof. split; vm_compute; reflexivity. Qed.
+
+(* an alias that is not a root is still selected when a root depends on it: //:tagged -> //:al -> //:plain *)
+Example alias_followed_as_dependency :
+  spec_roots wit_cfg wit_nodes [[]; [0]; [1]] = [2] /\
+  select_for_build wit_cfg wit_nodes [[]; [0]; [1]] = Selected [0; 1; 2].
+Proof. split; vm_compute; reflexivity. Qed.
+
+(* //:win (windows only), alias //:al -> //:win, //:plain; grog build //... on linux: the alias is skipped
+   like its target (before the repair: the fatal platform error) *)
 Definition wit2_nodes : list node :=
   [ mkNode KTarget (lbl w_tagged) [] [w_win] false [];
     mkNode KAlias (lbl w_al) [] [] false [];
     mkNode KTarget (lbl w_plain) [] [] false [] ].
 Definition wit2_cfg : config := mkCfg [match_all_pattern] [] [] NonTestOnly w_linux false.
 
-Lemma platform_error_full_refuted :
-  exists cfg ns g,
-    topo g /\ select_for_build cfg ns g = PlatformError /\
-    ~ exists r n, In r (spec_roots cfg ns g) /\ reach g n r /\ node_matches_platform cfg (attr ns n) = false.
-Proof.
-  exists wit2_cfg, wit2_nodes, wit_graph. split; [exact wit_topo |].
-  split; [vm_compute; reflexivity |].
-  intros [r [n [Hr [Hx _]]]].
-  assert (Er : spec_roots wit2_cfg wit2_nodes wit_graph = [2]) by (vm_compute; reflexivity).
-  rewrite Er in Hr. destruct Hr as [Hr | []]. subst r.
-  exact (no_reach_leaf wit_graph 2 n eq_refl Hx).
-Qed.
+Example alias_platform_skipped :
+  spec_roots wit2_cfg wit2_nodes wit_graph = [2] /\
+  select_for_build wit2_cfg wit2_nodes wit_graph = Selected [2] /\
+  platform_skipped wit2_cfg wit2_nodes wit_graph = 1.
+Proof. split; [| split]; vm_compute; reflexivity. Qed.
+
+(* the platform error remains for a DEPENDENCY (also one reached through an alias) that does not match *)
+Example platform_error_through_alias :
+  select_for_build wit2_cfg wit2_nodes [[]; [0]; [1]] = PlatformError.
+Proof. vm_compute; reflexivity. Qed.
 
 (* ------------------------------------------------------------------ the visited traversals (C20, C19) *)
 
@@ -917,47 +930,52 @@ Proof. unfold print_sorted. rewrite compact_strs_in. apply sorted_labels_in. Qed
 Lemma print_sorted_nodup ns l : NoDup (print_sorted ns l).
 Proof. unfold print_sorted, sorted_labels. apply compact_strs_nodup. apply sort_strs_sorted. Qed.
 
+(* the query selector has no patterns: a node is printed iff the target it stands for passes the
+   type / tag / exclude-tag / platform filters (before the repair of C20-F2 every alias was printed) *)
+Lemma query_match cfg ns g x : node_match (query_cfg cfg) ns g x = passes_filters cfg ns g x.
+Proof. rewrite node_match_spec. reflexivity. Qed.
+
 Lemma deps_query_exact cfg ns g n s : topo g ->
   (In s (deps_query cfg ns g n true) <->
-   exists x, reach g x n /\ node_match (query_cfg cfg) (attr ns x) = true /\ s = print_label (nlabel (attr ns x))).
+   exists x, reach g x n /\ passes_filters cfg ns g x = true /\ s = print_label (nlabel (attr ns x))).
 Proof.
   intro Ht. unfold deps_query, filter_nodes. rewrite print_sorted_in. split.
-  - intros [i [Hi E]]. apply filter_In in Hi. destruct Hi as [Hi Hm].
+  - intros [i [Hi E]]. apply filter_In in Hi. destruct Hi as [Hi Hm]. rewrite query_match in Hm.
     exists i. split; [apply (deps_t_exact g n i Ht); exact Hi | split; assumption].
   - intros [x [Hx [Hm E]]]. exists x. split; [| exact E].
-    apply filter_In. split; [apply (deps_t_exact g n x Ht); exact Hx | exact Hm].
+    apply filter_In. split; [apply (deps_t_exact g n x Ht); exact Hx | rewrite query_match; exact Hm].
 Qed.
 
 Lemma rdeps_query_exact cfg ns g n s : topo g ->
   (In s (rdeps_query cfg ns g n true) <->
-   exists x, reach g n x /\ node_match (query_cfg cfg) (attr ns x) = true /\ s = print_label (nlabel (attr ns x))).
+   exists x, reach g n x /\ passes_filters cfg ns g x = true /\ s = print_label (nlabel (attr ns x))).
 Proof.
   intro Ht. unfold rdeps_query, filter_nodes. rewrite print_sorted_in. split.
-  - intros [i [Hi E]]. apply filter_In in Hi. destruct Hi as [Hi Hm].
+  - intros [i [Hi E]]. apply filter_In in Hi. destruct Hi as [Hi Hm]. rewrite query_match in Hm.
     exists i. split; [apply (rdeps_t_exact g n i Ht); exact Hi | split; assumption].
   - intros [x [Hx [Hm E]]]. exists x. split; [| exact E].
-    apply filter_In. split; [apply (rdeps_t_exact g n x Ht); exact Hx | exact Hm].
+    apply filter_In. split; [apply (rdeps_t_exact g n x Ht); exact Hx | rewrite query_match; exact Hm].
 Qed.
 
 Lemma deps_query_direct_exact cfg ns g n s :
   (In s (deps_query cfg ns g n false) <->
-   exists x, In x (deps g n) /\ node_match (query_cfg cfg) (attr ns x) = true /\ s = print_label (nlabel (attr ns x))).
+   exists x, In x (deps g n) /\ passes_filters cfg ns g x = true /\ s = print_label (nlabel (attr ns x))).
 Proof.
   unfold deps_query, filter_nodes. rewrite print_sorted_in. split.
-  - intros [i [Hi E]]. apply filter_In in Hi. destruct Hi as [Hi Hm]. exists i. auto.
-  - intros [x [Hx [Hm E]]]. exists x. split; [apply filter_In; auto | exact E].
+  - intros [i [Hi E]]. apply filter_In in Hi. destruct Hi as [Hi Hm]. rewrite query_match in Hm. exists i. auto.
+  - intros [x [Hx [Hm E]]]. exists x. split; [apply filter_In; rewrite query_match; auto | exact E].
 Qed.
 
 Lemma rdeps_query_direct_exact cfg ns g n s :
   (In s (rdeps_query cfg ns g n false) <->
-   exists x, x < size g /\ In n (deps g x) /\ node_match (query_cfg cfg) (attr ns x) = true
+   exists x, x < size g /\ In n (deps g x) /\ passes_filters cfg ns g x = true
              /\ s = print_label (nlabel (attr ns x))).
 Proof.
   unfold rdeps_query, filter_nodes. rewrite print_sorted_in. split.
-  - intros [i [Hi E]]. apply filter_In in Hi. destruct Hi as [Hi Hm].
+  - intros [i [Hi E]]. apply filter_In in Hi. destruct Hi as [Hi Hm]. rewrite query_match in Hm.
     apply dependants_spec in Hi. exists i. tauto.
   - intros [x [Hx [Hin [Hm E]]]]. exists x. split; [| exact E].
-    apply filter_In. split; [apply dependants_spec; auto | exact Hm].
+    apply filter_In. split; [apply dependants_spec; auto | rewrite query_match; exact Hm].
 Qed.
 
 (* printed level: every line once, for every query *)
@@ -985,6 +1003,16 @@ Example deps_query_declared_twice :
   deps_query all_cfg dia_nodes [[]; [0; 0]] 1 false = [dslash ++ ch_colon :: w_plain].
 Proof. vm_compute. reflexivity. Qed.
 
+(* //:tagged -> alias //:al -> //:plain (untagged).  With --tag=x neither //:plain nor the alias that stands for it
+   is printed (before the repair of C20-F2 the alias was); without the filter both are; `list --tag=x //...`
+   prints //:tagged only *)
+Example deps_query_alias_filtered :
+  deps_query (mkCfg [] [w_x] [] AllTargets w_linux false) wit_nodes [[]; [0]; [1]] 2 true = [] /\
+  deps_query all_cfg wit_nodes [[]; [0]; [1]] 2 true = [dslash ++ ch_colon :: w_al; dslash ++ ch_colon :: w_plain] /\
+  rdeps_query (mkCfg [] [] [w_x] AllTargets w_linux false) wit_nodes [[]; [0]; [1]] 0 true = [dslash ++ ch_colon :: w_al] /\
+  list_query wit_cfg wit_nodes wit_graph = [dslash ++ ch_colon :: w_tagged].
+Proof. repeat split; vm_compute; reflexivity. Qed.
+
 Lemma owners_exact ns files s :
   In s (owners ns files) <->
   exists i, i < length ns /\ is_target (attr ns i) = true /\
@@ -1005,14 +1033,16 @@ Qed.
 
 Lemma list_exact cfg ns g s :
   In s (list_query cfg ns g) <->
-  exists i, i < size g /\ node_matches_filters cfg (attr ns i) = true /\
-            node_matches_platform cfg (attr ns i) = true /\ s = print_label (nlabel (attr ns i)).
+  exists i, i < size g /\ matches_patterns (cpats cfg) (nlabel (attr ns i)) = true /\
+            passes_filters cfg ns g i = true /\ s = print_label (nlabel (attr ns i)).
 Proof.
   unfold list_query, select_targets. rewrite sorted_labels_in. split.
   - intros [i [Hi E]]. apply filter_In in Hi. destruct Hi as [Hi Hm]. apply in_seq in Hi.
-    unfold node_match in Hm. apply andb_true_iff in Hm. exists i. split; [lia | tauto].
+    rewrite node_match_spec in Hm. unfold spec_rootb in Hm. apply andb_true_iff in Hm.
+    exists i. split; [lia | tauto].
   - intros [i [Hi [Hf [Hp E]]]]. exists i. split; [| exact E].
-    apply filter_In. split; [apply in_seq; lia |]. unfold node_match. rewrite Hf, Hp. reflexivity.
+    apply filter_In. split; [apply in_seq; lia |]. rewrite node_match_spec. unfold spec_rootb.
+    rewrite Hf, Hp. reflexivity.
 Qed.
 
 (* `list` prints every selected label once when labels are unique *)
